@@ -1000,9 +1000,10 @@ theorem analyzeBlock_head (id : Nat) (kind : BlockKind) (name : String)
       (∀ x, x ∈ info.params ↔ x ∈ params) ∧
       (∀ x, x ∈ info.locals ↔ (x ∈ params ∨ x ∈ binds) ∧ x ∉ globals ∧ x ∉ walrus ∧ x ∉ nonlocals) ∧
       (∀ x, x ∈ info.declaredGlobals ↔ x ∈ globals) ∧
-      (∀ x, x ∈ info.declaredNonlocals ↔ x ∉ globals ∧ (x ∈ nonlocals ∨ x ∈ walrus)) := by
+      (∀ x, x ∈ info.declaredNonlocals ↔ x ∉ globals ∧ (x ∈ nonlocals ∨ x ∈ walrus)) ∧
+      (∀ x, x ∈ info.frees ↔ x ∉ globals ∧ (x ∈ nonlocals ∨ x ∈ walrus)) := by
   simp only [analyzeBlock]
-  refine ⟨_, _, rfl, rfl, ?_, ?_, ?_, ?_⟩
+  refine ⟨_, _, rfl, rfl, ?_, ?_, ?_, ?_, ?_⟩
   · intro x
     simp only [BlockInfo.params, BlockInfo.names, List.filter_append, List.map_append, List.mem_append, List.mem_map,
       List.mem_filter, ownNames, dedup, List.mem_eraseDups, Block.params, Block.binds, Block.globals, Block.nonlocals,
@@ -1048,6 +1049,19 @@ theorem analyzeBlock_head (id : Nat) (kind : BlockKind) (name : String)
         by_cases h1 : n ∈ globals <;> by_cases h2 : n ∈ walrus <;> by_cases h3 : n ∈ nonlocals <;>
           by_cases h4 : n ∈ params <;> by_cases h5 : n ∈ binds <;> simp_all
       · simp at hp
+    · rintro ⟨hg, hnw⟩
+      refine Or.inl ⟨_, ⟨⟨x, by rcases hnw with h | h <;> simp [h], rfl⟩, ?_⟩, rfl⟩
+      rcases hnw with h | h <;> by_cases h2 : x ∈ walrus <;> by_cases h3 : x ∈ nonlocals <;> simp_all
+  · intro x
+    simp only [BlockInfo.frees, BlockInfo.names, List.filter_append, List.map_append, List.mem_append, List.mem_map,
+      List.mem_filter, ownNames, dedup, List.mem_eraseDups, Block.params, Block.binds, Block.globals, Block.nonlocals,
+      Block.uses, Block.walrus, scopeOf]
+    constructor
+    · rintro (⟨sy, ⟨⟨n, hn, rfl⟩, hp⟩, rfl⟩ | ⟨sy, ⟨⟨n, hn, rfl⟩, hp⟩, rfl⟩)
+      · simp only at hp ⊢
+        by_cases h1 : n ∈ globals <;> by_cases h2 : n ∈ walrus <;> by_cases h3 : n ∈ nonlocals <;>
+          by_cases h4 : n ∈ params <;> by_cases h5 : n ∈ binds <;> simp_all
+      · simp at hn
     · rintro ⟨hg, hnw⟩
       refine Or.inl ⟨_, ⟨⟨x, by rcases hnw with h | h <;> simp [h], rfl⟩, ?_⟩, rfl⟩
       rcases hnw with h | h <;> by_cases h2 : x ∈ walrus <;> by_cases h3 : x ∈ nonlocals <;> simp_all
